@@ -162,6 +162,66 @@ Proof.
     end; cbn [fst snd] in *; try reflexivity; try discriminate.
 Qed.
 
+(* when the ideal operation is undefined: bad index, empty sequence, item not present *)
+Definition undefined0 (l : list Z) (o : op) : Prop :=
+  match o with
+  | ORemoveHead | ORemoveTail => l = []
+  | ORemoveAt i | OReplaceAt i _ | OGet i | OAddTailRef i | OAddHeadRef i | OInsertAtRef _ i => length l <= i
+  | OReplaceRef idx i => length l <= idx \/ length l <= i
+  | ORemoveFirstInstance x | ORemoveLastInstance x => ~ In x l
+  | _ => False
+  end.
+
+Lemma find_from_none x l : forall s, find_from x l s = None <-> ~ In x l.
+Proof.
+  induction l as [|y l IH]; intros s; cbn [find_from In]; [tauto|].
+  destruct (Z.eqb y x) eqn:E.
+  - apply Z.eqb_eq in E. split; [discriminate|]. intros H. exfalso. apply H. left. exact E.
+  - apply Z.eqb_neq in E. rewrite IH. tauto.
+Qed.
+
+(* the ideal operation answers "none" / "err" exactly when it is undefined (and then, by [step0]'s
+   definition, returns the sequence unchanged) *)
+Theorem step0_fails_iff l o :
+  (snd (step0 l o) = OVal None \/ snd (step0 l o) = OStatus false) <-> undefined0 l o.
+Proof.
+  destruct o; cbn [step0 undefined0 snd];
+    try (split; [intros [H|H];
+                 repeat match type of H with context [if ?c then _ else _] => destruct c end;
+                 discriminate H|tauto]).
+  - (* RemoveHead *) destruct l; cbn [snd]; split; try tauto; try discriminate. intros [H|H]; discriminate H.
+  - (* RemoveTail *)
+    destruct (rev l) as [|x t] eqn:E; cbn [snd].
+    + split; [intros _|tauto]. apply (f_equal (@rev Z)) in E. rewrite rev_involutive in E. exact E.
+    + split; [intros [H|H]; discriminate H|]. intros ->. discriminate E.
+  - (* RemoveItemAt *) destruct (i <? length l) eqn:E; cbn [snd]; split; try lia; try tauto. intros [H|H]; discriminate H.
+  - (* ReplaceItemAt *) destruct (i <? length l) eqn:E; cbn [snd]; split; try lia; try tauto. intros [H|H]; discriminate H.
+  - (* GetItemAt *) destruct (i <? length l) eqn:E; split; try lia; try tauto. intros [H|H]; discriminate H.
+  - (* RemoveFirstInstanceOf *)
+    destruct (find_from x l 0) eqn:E; cbn [snd].
+    + split; [intros [H|H]; discriminate H|]. intros H. apply (find_from_none x l 0) in H. congruence.
+    + split; [intros _|tauto]. apply (find_from_none x l 0). exact E.
+  - (* RemoveLastInstanceOf *)
+    destruct (find_from x (rev l) 0) eqn:E; cbn [snd].
+    + split; [intros [H|H]; discriminate H|]. intros H. rewrite in_rev in H. apply (find_from_none x (rev l) 0) in H. congruence.
+    + split; [intros _|tauto]. rewrite in_rev. apply (find_from_none x (rev l) 0). exact E.
+  - (* AddTail(q[i]) *) destruct (i <? length l) eqn:E; cbn [snd]; split; try lia; try tauto. intros [H|H]; discriminate H.
+  - (* AddHead(q[i]) *) destruct (i <? length l) eqn:E; cbn [snd]; split; try lia; try tauto. intros [H|H]; discriminate H.
+  - (* InsertItemAt(idx, q[i]) *) destruct (i <? length l) eqn:E; cbn [snd]; split; try lia; try tauto. intros [H|H]; discriminate H.
+  - (* ReplaceItemAt(idx, q[i]) *)
+    destruct ((idx <? length l) && (i <? length l)) eqn:E; cbn [snd]; split; try lia; try tauto. intros [H|H]; discriminate H.
+Qed.
+
+Theorem step0_fail_unchanged l o :
+  snd (step0 l o) = OVal None \/ snd (step0 l o) = OStatus false -> fst (step0 l o) = l.
+Proof.
+  destruct o; cbn [step0]; intros [H|H];
+    repeat match goal with
+    | H : context [match ?c with _ => _ end] |- _ => destruct c eqn:?
+    | |- context [match ?c with _ => _ end] => destruct c eqn:?
+    end; cbn [fst snd] in *; try reflexivity; try discriminate.
+Qed.
+
 (* ------------------------------------------------------------------ all operation lists *)
 
 Lemma run_gen ops : forall q l outs, Inv q -> abs q = l ->
